@@ -762,6 +762,16 @@ func engineLevel(enc *json.Encoder, tmp string, rng *rand.Rand, ngroups int) {
 		mkVersion(swapped, 0, "6th version of the file at the same path, a run on another file in between: same length as the 5th, every arr is brr")}
 	versions[2].onlyL0 = true
 	versions[4].onlyL0, versions[4].afterOther = true, true
+	// generated code: a //line directive in front of the package clause attributes every position to another file (the grammar,
+	// the template), and that file EXISTS next to the target -- the texts are those of the file that is analysed
+	lineHeader := "//line grammar.y:1\n"
+	versions = append(versions, mkVersion(append([]byte(lineHeader), src...), len(lineHeader),
+		"8th version of the file at the same path: `//line grammar.y:1` in front of the package clause, grammar.y exists next to the file"))
+	versions[len(versions)-1].onlyL0 = true
+	if err := os.WriteFile(filepath.Join(filepath.Dir(versions[0].t.Path), "grammar.y"), []byte(strings.Repeat("%% the grammar, not the file that is analysed\n", len(src)/40+2)), 0o644); err != nil {
+		fmt.Fprintln(os.Stderr, "target:", err)
+		os.Exit(3)
+	}
 	// ... and the same path once more, parsed into a FileSet of its own (the rules stay loaded with the first one)
 	own := token.NewFileSet()
 	own.AddFile("pad.go", -1, 777)
@@ -808,15 +818,15 @@ func engineLevel(enc *json.Encoder, tmp string, rng *rand.Rand, ngroups int) {
 				if data.Node == nil {
 					r.NilNode = true
 				} else {
-					p := t.Fset.Position(data.Node.Pos())
+					p := t.Fset.PositionFor(data.Node.Pos(), false)
 					r.file = p.Filename
 					r.Pos = p.Offset
-					r.End = t.Fset.Position(data.Node.End()).Offset
+					r.End = t.Fset.PositionFor(data.Node.End(), false).Offset
 				}
 				if data.Suggestion != nil {
 					r.HasSugg = true
-					r.SuggFrom = t.Fset.Position(data.Suggestion.From).Offset
-					r.SuggTo = t.Fset.Position(data.Suggestion.To).Offset
+					r.SuggFrom = t.Fset.PositionFor(data.Suggestion.From, false).Offset
+					r.SuggTo = t.Fset.PositionFor(data.Suggestion.To, false).Offset
 					r.Sugg = string(data.Suggestion.Replacement)
 				}
 				if data.Func != nil {
